@@ -1484,7 +1484,7 @@ func init() {
 		Init:     initWorld,
 		Race:     true,
 		Batch:    1500,
-		HangSecs: 120,
+		HangSecs: 60,
 		Assumptions: []string{
 			"the reference dispatcher (internal/c10/ref, written from the property statement and design/generics.md) is the trusted oracle",
 			"defclass chains give the class precedence list leaf..root, standard-object, t (checked by C12)",
